@@ -46,6 +46,44 @@ def facts_at(body, bb, facts=None):
     return out
 
 
+def controlling_switches(body, bb):
+    """Switch blocks the (diverging) site bb is immediately control dependent
+    on: grow the set Z of blocks that inevitably reach bb (every normal
+    successor in Z); the switches with one successor in Z and one outside are
+    the decisions that select the site.  Used for explicit panic sites whose
+    block is the merge point of several match arms (`_ => unreachable!()`
+    reached from both the None arm and the otherwise arm), where no single
+    edge dominates."""
+    z = {bb}
+    preds = body.preds()
+    changed = True
+    while changed:
+        changed = False
+        for blk in list(z):
+            for p, lab in preds.get(blk, ()):
+                if p in z:
+                    continue
+                ss = [s for s, _ in body.succs(p)]
+                if ss and all(s in z for s in ss):
+                    z.add(p)
+                    changed = True
+    out = []
+    for blk in z:
+        for p, lab in preds.get(blk, ()):
+            if p not in z and body.blocks[p]["t"]["k"] == "switch" and p not in out:
+                out.append(p)
+    return sorted(out)
+
+
+def control_terms(body, bb, facts=None):
+    """terms deciding whether bb is reached: dominating switch-edge facts plus
+    the discriminants of the switches bb is immediately control dependent on."""
+    out = [t for t, v, e in facts_at(body, bb, facts)]
+    for sw in controlling_switches(body, bb):
+        out.append(body.term_of_operand(body.blocks[sw]["t"]["d"]))
+    return out
+
+
 SUCCESS_VARIANTS = {"Ok", "Some", "Continue", "Ready"}
 FAILURE_VARIANTS = {"Err", "None", "Break"}
 
@@ -141,9 +179,40 @@ def failed_calls(body, bb, facts=None):
     return s
 
 
+_NEG = {"Eq": "Ne", "Ne": "Eq", "Lt": "Ge", "Ge": "Lt", "Gt": "Le", "Le": "Gt"}
+_MIRROR = {"Eq": "Eq", "Ne": "Ne", "Lt": "Gt", "Gt": "Lt", "Le": "Ge", "Ge": "Le"}
+_NEG_CALL = {"eq": "ne", "ne": "eq", "lt": "ge", "ge": "lt", "gt": "le", "le": "gt",
+             "is_some": "is_none", "is_none": "is_some", "is_ok": "is_err", "is_err": "is_ok"}
+
+
+def equivalent_forms(t, v):
+    """All spellings of one boolean fact: `a != 1` false == `a == 1` true ==
+    `1 == a` true ...; `x.ne(y)` false == `x.eq(y)` true.  Rules match one
+    spelling; a maintainer who negates a condition and swaps the branches
+    has not changed the fact."""
+    out = [(t, v)]
+    if t[0] == "bin" and t[1] in _NEG:
+        op, a, b = t[1], t[2], t[3]
+        rest = tuple(t[4:])
+        out.append((("bin", _NEG[op], a, b) + rest, not v))
+        out.append((("bin", _MIRROR[op], b, a) + rest, v))
+        out.append((("bin", _NEG[_MIRROR[op]], b, a) + rest, not v))
+    elif t[0] == "call" and t[1]:
+        m = re.search(r"::(eq|ne|lt|le|gt|ge|is_some|is_none|is_ok|is_err)$", t[1])
+        if m:
+            nm = t[1][: m.start(1)] + _NEG_CALL[m.group(1)]
+            out.append((("call", nm) + tuple(t[2:]), not v))
+    return out
+
+
 def bool_facts(body, bb, facts=None):
-    """[(term, bool)] dominating boolean facts (stripped terms)."""
-    return [(deep_strip(s), o) for s, o in outcome_facts(body, bb, facts) if isinstance(o, bool)]
+    """[(term, bool)] dominating boolean facts (stripped terms), each in all
+    of its equivalent spellings."""
+    out = []
+    for s, o in outcome_facts(body, bb, facts):
+        if isinstance(o, bool):
+            out.extend(equivalent_forms(deep_strip(s), o))
+    return out
 
 
 # ---------------------------------------------------------------------------
